@@ -22,3 +22,30 @@ Print Assumptions loop_count_post.
 Theorem C14_sound : forall l stt, C14.acc l = Accept stt -> forall c, In c l -> C14.P_call c.
 Proof. exact C14.C14_sound. Qed.
 Print Assumptions C14_sound.
+
+(* ---- T2: the loop of simulate_until_max_time over the ENGINE MODEL (coq/Engine, tied to /repo by the stepwise correspondence check K2) ---- *)
+From Coq Require Import ZArith List.
+From CiwV.Engine Require Import State Engine Codec.
+From CiwV.Inv Require Import Frame Conserve Clock Horizon.
+Open Scope Z_scope.
+
+(* for every configuration, every horizon T, every state satisfying the invariants and every oracle (service and inter-arrival
+   draws >= 0): the loop "while the active node's date < T: execute its event" executes only events that were due at the clock and
+   dated before T, in non-decreasing order of date; when it stops on its test nothing whatsoever is scheduled before T; customers in
+   the nodes are left in place (conservation holds at return) *)
+Theorem engine_horizon : forall cf T ds s s' rest, Conserve.WFx nil s -> Horizon.Hzn cf s -> Horizon.run_until cf T s ds = Ok (s', rest) ->
+  exists used tr,
+    ds = used ++ rest /\ length tr = length used /\ Codec.run_many cf s used = Ok s' /\
+    (forall k x, nth_error tr k = Some x -> Codec.run_many cf s (firstn k used) = Ok x) /\
+    (rest <> nil -> Horizon.before T s' = false) /\
+    (Forall Clock.DrawsOK used ->
+     Forall (fun x => Horizon.next_date x = Some (now x) /\ now x < T) tr /\
+     Horizon.chain (now s) (map now tr ++ (now s' :: nil)) /\
+     Conserve.WFx nil s' /\ Horizon.Hzn cf s' /\
+     (Horizon.before T s' = false -> (T <= now s' \/ Clock.nothing_scheduled s') /\ Horizon.NothingBefore cf T s')).
+Proof. exact Horizon.engine_horizon. Qed.
+Print Assumptions engine_horizon.
+
+Theorem hzn_b_sound : forall cf s, Horizon.hzn_b cf s = true -> Horizon.Hzn cf s.
+Proof. exact Horizon.hzn_b_sound. Qed.
+Print Assumptions hzn_b_sound.
